@@ -50,6 +50,18 @@ def run(ctx):
             ctx.violation("C12:mixed-with-another" if "text of the exchange" in r["why"] or "own target" in r["why"] else "C12:concurrent-faults", r)
         else:
             ctx.traces_ok += 1
+    # input whose size the peer chooses (FaultCases.tla, Unbounded): the memory the proxy keeps for it is bounded
+    out = ctx.run_vh(binp, ["c12-mem"], timeout=1200)
+    out, crashed = ctx.nocrash(out, "C12:crash:unbounded-input")
+    if not crashed and len(out) != 2:
+        raise vlib.Infra("c12-mem: %d results" % len(out))
+    for r in out:
+        ctx.evaluations += 1
+        ctx.nontrivial.add("mem:" + r["input"])
+        if not r["ok"]:
+            ctx.violation("C12:memory-in-proportion-to-input:" + ("request-head" if "head" in r["input"] else "connect-rejection-body"), r)
+        else:
+            ctx.traces_ok += 1
 
 
 def replay(ctx, path):
